@@ -31,8 +31,8 @@ ASSUMPTIONS = [
     "match_depth=False and mappings of inconsistent depth are caller errors and are not generated",
 ]
 
-CATS = ["c1", "c2"]
-DBS = ["d1", "d2"]
+CATS = ["c1", "c2", "C1"]
+DBS = ["d1", "d2", "D1"]
 TBLS = ["t1", "t2", "T1"]
 COLS = ["a", "b", "A"]
 TYPES = ["int", "text", "varchar(10)", "DT:ARRAY<INT>", "DT:DECIMAL(10, 2)", "datetime", "BAD"]
